@@ -191,6 +191,7 @@ fn main() {
         let mut prev = Obs { idx: 0, n: 0, cur: None, nsel: 0, out: None };
         let mut listed: Vec<u64> = Vec::new(); // ids since last clear (any order)
         let mut moves_checked = 0;
+        let (mut wm, mut wm_run): (usize, u32) = (0, 0); // pre-selection: longest list seen in the latest run with results
         for (k, op) in ops.iter().enumerate() {
             let mut pointer_rows: Option<Vec<usize>> = None;
             let mut outside = 0usize;
@@ -314,6 +315,10 @@ fn main() {
             // with a selector a result update may add arrivals the selector picks (which of them: the model's watermark rule)
             if multi && selmod > 0 {
                 if let Op::Append(b) = op {
+                    // arrivals are looked at only while the list is at least as long as it has ever been in this run
+                    if !b.is_empty() && run_no > wm_run { wm_run = run_no; wm = 0; }
+                    let looked_at = prev.n >= wm;
+                    wm = wm.max(o.n);
                     let have: BTreeSet<(u32, u32)> = sel.verif_selected_keys().into_iter().collect();
                     // the objects stored, in key order (a pre-selected arrival replaces the object stored under its key)
                     let stored: Vec<u64> = o.out.as_ref().map(|x| x.1.clone()).unwrap_or_default();
@@ -324,6 +329,7 @@ fn main() {
                             continue;
                         }
                         match cand {
+                            Some(_) if !looked_at => { bad.entry("C10").or_insert(format!("after op #{} {:?}: key {:?} became selected by itself: the list ({} rows before this batch) had already been longer ({} rows) in this run, so these items had been seen", k, op, key, prev.n, wm)); }
                             Some((_, id, _)) => { want_sel.insert(*key, *id); }
                             None => { bad.entry("C10").or_insert(format!("after op #{} {:?}: key {:?} became selected; it is not an arrival the selector (every {}th position) picks", k, op, key, selmod)); }
                         }
@@ -338,6 +344,8 @@ fn main() {
                 if *got_ids != want {
                     let p = if multi && !want_sel.is_empty() { "C10" } else { "C05" };
                     bad.entry(p).or_insert(format!("after op #{} {:?}: accept would return ids {:?}, expected {:?}", k, op, got_ids, want));
+                    // what accept returns is not the selected set: that is C05's clause too, whichever action went wrong
+                    bad.entry("C05").or_insert(format!("after op #{} {:?}: accept would return ids {:?}, the items selected by the actions so far are {:?}", k, op, got_ids, want));
                 }
             }
             prev = o.clone();
